@@ -76,6 +76,9 @@ from .resolver import resolve_target_state
 # -----------------------------------------------------------------------------
 logger = logging.getLogger(__name__)
 
+#: How long `stop()` waits for a macrostep that is in flight on another thread.
+_STOP_DRAIN_GRACE_SECONDS = 2.0
+
 
 # -----------------------------------------------------------------------------
 # ⛓️ SyncInterpreter Class Definition
@@ -214,6 +217,7 @@ class SyncInterpreter(BaseInterpreter[TContext, TEvent]):
         # active leaves. Guarding defers such events until entry has settled,
         # after which the queue is drained normally.
         self._is_processing = True
+        self._drain_thread = threading.get_ident()
         try:
             self._enter_states([self.machine])
             # 🔄 Settle immediate "always" transitions behind the same guard:
@@ -222,12 +226,14 @@ class SyncInterpreter(BaseInterpreter[TContext, TEvent]):
             #    Settling before draining also matches the async engine.
             self._process_transient_transitions()
         finally:
+            # 🧹 `stop()` may have arrived from another thread (a parent
+            #    stopping this actor) while the entry actions were still
+            #    running; release whatever they spawned or armed after that
+            #    sweep, before the flag that `stop()` waits on is cleared.
+            if self.status == "stopped":
+                self._release_resources()
             self._is_processing = False
-        # 🧹 `stop()` may have arrived from another thread (a parent stopping
-        #    this actor) while the entry actions were still running; release
-        #    whatever they spawned or armed after that sweep.
         if self.status == "stopped":
-            self._release_resources()
             return self
         # 📬 Drain anything raised while the initial configuration settled.
         self._process_event_queue()
@@ -276,6 +282,30 @@ class SyncInterpreter(BaseInterpreter[TContext, TEvent]):
         self.status = "stopped"
         self._unregister_from_system()
         self._release_resources()
+
+        # 2️⃣.7 A macrostep may be in flight on ANOTHER thread: timers, delayed
+        #      sends and actors deliver their events on threads of their own.
+        #      Its remaining actions cannot be interrupted, so wait for it
+        #      (it releases whatever it still arms, see
+        #      `_process_event_queue`). Without this, user actions of that
+        #      macrostep kept running after `stop()` had returned. The wait
+        #      is bounded so that an action blocked on the caller cannot
+        #      deadlock shutdown; the async engine gives the same guarantee
+        #      by awaiting its run loop.
+        if self._is_processing and (
+            self._drain_thread != threading.get_ident()
+        ):
+            deadline = time.monotonic() + _STOP_DRAIN_GRACE_SECONDS
+            while self._is_processing and time.monotonic() < deadline:
+                time.sleep(0.0005)
+            if self._is_processing:
+                logger.warning(
+                    "⏳ Interpreter '%s' is still running an action on "
+                    "another thread %.1fs after stop(); not waiting longer.",
+                    self.id,
+                    _STOP_DRAIN_GRACE_SECONDS,
+                )
+            self._release_resources()
 
         # 3️⃣ Update status to prevent further operations
         self.status = "stopped"
@@ -442,12 +472,13 @@ class SyncInterpreter(BaseInterpreter[TContext, TEvent]):
                 self._process_event(current_event)
                 self._process_transient_transitions()
         finally:
-            self._is_processing = False
-            logger.debug("🎉 Event processing cycle completed. Queue empty.")
             # 🧹 Stopped from another thread mid-macrostep: release what the
-            #    remaining actions created after `stop()` had swept.
+            #    remaining actions created after `stop()` had swept — before
+            #    the flag clears, because that `stop()` is waiting on it.
             if self.status == "stopped":
                 self._release_resources()
+            self._is_processing = False
+            logger.debug("🎉 Event processing cycle completed. Queue empty.")
         # 🔁 Another thread may have queued an event after the last emptiness
         #    check but before the flag was released; it saw the flag set and
         #    returned, so without this re-check its event would sit in the
